@@ -247,9 +247,17 @@ def check_c22(case, log, oc, labels):
     p = case["platform"]
     h0 = [h for h in p["hosts"] if h["name"] == "h0"][0]
     l0 = [l for l in p["links"] if l["name"] == "l0"][0]
-    suffix = ":cpu-TI" if ti else ""
-    if ti and "speed_profile" in h0 and h0["speed_profile"]["points"][0][0] > 0:
-        suffix += ":profile-first-point-not-at-0"
+    # root-cause classes of the TI model come first in the signature (known findings match on prefixes)
+    pre = ""
+    if ti:
+        pre = "cpu-TI:"
+        if "speed_profile" in h0:
+            ds = [d for d, _ in h0["speed_profile"]["points"]]
+            P0 = h0["speed_profile"].get("period", -1)
+            if len(set(ds)) < len(ds) or (P0 > 0 and P0 == ds[-1] and ds[0] == 0):
+                pre += "zero-length-segment:"
+            elif ds[0] > 0:
+                pre += "profile-first-point-not-at-0:"
 
     # ---- (1) every event of every profile fires at its date with its value, up to the last date the clock reached
     def fired(kind, name, field):
@@ -291,7 +299,7 @@ def check_c22(case, log, oc, labels):
         t = T(l["t"])
         nsamp += 1
         if "speed_profile" in h0 and "speed" in l:
-            if not expect_value("sampled speed of h0", t, T(l["speed"]["h0"]), ref.speed_ev, 1.0, ref.peak, "sampled-speed-differs" + suffix):
+            if not expect_value("sampled speed of h0", t, T(l["speed"]["h0"]), ref.speed_ev, 1.0, ref.peak, pre + "sampled-speed-differs"):
                 break
         if "bw_profile" in l0 and not expect_value("sampled bandwidth of l0", t, T(l["bw"]["l0"]), ref.bw_ev, ref.bw0, 1.0, "sampled-bandwidth-differs"):
             break
@@ -349,7 +357,7 @@ def check_c22(case, log, oc, labels):
                 if nxt is not None and nxt["k"] == "ret" and "r" in nxt:
                     r = nxt["r"]
                     if "speed_profile" in h0:
-                        expect_value("Host::get_available_speed of h0 seen by %s" % an, t0, T(r["avail"]), ref.speed_ev, 1.0, 1.0, "observed-speed-differs" + suffix)
+                        expect_value("Host::get_available_speed of h0 seen by %s" % an, t0, T(r["avail"]), ref.speed_ev, 1.0, 1.0, pre + "observed-speed-differs")
                     if "state_profile" in h0 and r["on"] != Ref.is_on(ref.hstate_ev, t0) and t0 > 0:
                         oc.bad("observed-host-state-differs", "%s sees h0 %s at %r" % (an, "on" if r["on"] else "off", t0))
                 continue
@@ -368,7 +376,7 @@ def check_c22(case, log, oc, labels):
                 if math.isinf(want[1]) or deadlock and math.isinf(want[1]):
                     labels.add("never-ends-by-profile")
                     continue
-                oc.bad("operation-never-ends" + suffix, "%s %s started at %r never ended (expected %s at %r)" % (an, op, t0, want[0], want[1]))
+                oc.bad(pre + "operation-never-ends", "%s %s started at %r never ended (expected %s at %r)" % (an, op, t0, want[0], want[1]))
                 continue
             t1 = T(nxt["t"])
             if nxt["k"] == "ret":
@@ -376,25 +384,25 @@ def check_c22(case, log, oc, labels):
                 if want[0] == "tie":
                     labels.add("tie")
                     if not close(t1, want[1]):
-                        oc.bad("wrong-end-date" + suffix, "%s %s started at %r ended at %r, expected %r" % (an, op, t0, t1, want[1]))
+                        oc.bad(pre + "wrong-end-date", "%s %s started at %r ended at %r, expected %r" % (an, op, t0, t1, want[1]))
                 elif want[0] == "done":
                     if not ok:
-                        oc.bad("unexpected-failure" + suffix, "%s %s started at %r got %s at %r, expected completion at %r" % (an, op, t0, nxt["exc"], t1, want[1]))
+                        oc.bad(pre + "unexpected-failure", "%s %s started at %r got %s at %r, expected completion at %r" % (an, op, t0, nxt["exc"], t1, want[1]))
                     elif not close(t1, want[1]):
-                        oc.bad(("exec" if op[0] == "exec" else "sleep") + "-end-date-differs" + suffix,
+                        oc.bad(pre + ("exec" if op[0] == "exec" else "sleep") + "-end-date-differs",
                                "%s %s started at %r ended at %r, the integral of the speed profile gives %r" % (an, op, t0, t1, want[1]))
                 else:
                     if local:
                         oc.bad("dead-actor-goes-on", "w0 %s started at %r returned at %r although h0 goes off at %r" % (op, t0, t1, want[1]))
                     elif ok or nxt.get("exc") != "HostFailure":
-                        oc.bad("failure-not-reported" + suffix, "r0 %s started at %r returned %s at %r although h0 goes off at %r" % (op, t0, nxt.get("exc", "normally"), t1, want[1]))
+                        oc.bad(pre + "failure-not-reported", "r0 %s started at %r returned %s at %r although h0 goes off at %r" % (op, t0, nxt.get("exc", "normally"), t1, want[1]))
                     elif not close(t1, want[1]):
-                        oc.bad("failure-at-wrong-date" + suffix, "r0 %s started at %r got HostFailure at %r, h0 goes off at %r" % (op, t0, t1, want[1]))
+                        oc.bad(pre + "failure-at-wrong-date", "r0 %s started at %r got HostFailure at %r, h0 goes off at %r" % (op, t0, t1, want[1]))
             elif nxt["k"] == "on_exit" and local:
                 if want[0] == "done":
                     oc.bad("killed-without-cause", "w0 %s started at %r: on_exit at %r (failed=%s), expected completion at %r" % (op, t0, t1, nxt["failed"], want[1]))
                 elif not close(t1, want[1]) or not nxt["failed"]:
-                    oc.bad("kill-at-wrong-date" + suffix, "w0 %s started at %r: on_exit(failed=%s) at %r, h0 goes off at %r" % (op, t0, nxt["failed"], t1, want[1]))
+                    oc.bad(pre + "kill-at-wrong-date", "w0 %s started at %r: on_exit(failed=%s) at %r, h0 goes off at %r" % (op, t0, nxt["failed"], t1, want[1]))
                 else:
                     labels.add("killed-by-state-profile")
 
